@@ -258,7 +258,15 @@ func accessorWorkload(r *sim.Run) {
 	sk := "@u:a.example"
 	p := world.Proto{RoomID: world.FakeRoomID(t, impl, s.Name), Sender: "@u:a.example", Type: spec.MRoomMember, StateKey: &sk,
 		Content: map[string]any{"membership": "join"}, Depth: 3, Prev: []string{world.FakeEventID(t, impl, s.Name)}, Auth: []string{world.FakeEventID(t, impl, s.Name)}}
-	switch t.Intn(3) {
+	switch t.Intn(5) {
+	case 3: // power levels with a notifications object: PowerLevels() parses content and fills in defaults
+		empty := ""
+		p.Type, p.StateKey = spec.MRoomPowerLevels, &empty
+		p.Content = map[string]any{"users": map[string]any{"@u:a.example": 100}, "users_default": 0, "events": map[string]any{"m.room.name": 50},
+			"notifications": map[string]any{"room": 20 + t.Intn(60), "org.example.custom": t.Intn(100)}}
+	case 4:
+		empty := ""
+		p.Type, p.StateKey, p.Content = spec.MRoomJoinRules, &empty, map[string]any{"join_rule": "restricted", "allow": []any{map[string]any{"type": "m.room_membership", "room_id": "!x:a.example"}}}
 	case 1: // the create event: its room ID is derived in the newest event format
 		empty := ""
 		p = world.Proto{RoomID: p.RoomID, Sender: "@u:a.example", Type: spec.MRoomCreate, StateKey: &empty, Depth: 1,
@@ -315,6 +323,14 @@ func accessorWorkload(r *sim.Run) {
 			_ = ev.Version()
 			_, _ = ev.ToHeaderedJSON()
 			_ = ev.IsSticky(now, now)
+			// accessors that parse the content afresh on every call
+			if pl, perr := ev.PowerLevels(); perr == nil && pl != nil {
+				_ = pl.UserLevel("@u:a.example")
+				_ = pl.NotificationLevel("room")
+			}
+			_, _ = ev.JoinRule()
+			_, _ = ev.HistoryVisibility()
+			_ = ev.Redacts()
 			// signature verification reads the event through the same accessors
 			_ = gmsl.VerifyEventSignatures(context.Background(), ev, roVerifier{s}, func(roomID spec.RoomID, sender spec.SenderID) (*spec.UserID, error) {
 				return spec.NewUserID(string(sender), true)
